@@ -15,6 +15,7 @@
 (*   req   required signers (keys)                                          *)
 (*   vw    vkey witnesses       <<key, sigValid>>                           *)
 (*   bw    bootstrap witnesses  <<key, variant, sigValid>>                  *)
+(*   p2    the transaction is flagged is_valid = FALSE (phase-2 invalid)    *)
 (* A lock is <<"key", k>> (payment key hash of k), <<"byron", k>> (Byron    *)
 (* address with root Root(k, 0)) or <<"script", 0>>.                        *)
 EXTENDS Naturals, FiniteSets, FiniteSetsExt, Sequences, SequencesExt, Json, TLC
@@ -23,7 +24,8 @@ CONSTANTS MaxIn,    \* 1..MaxIn spent outputs
           MaxColl,  \* 0..MaxColl collateral outputs
           MaxReq,   \* 0..MaxReq required signers
           MaxVW,    \* 0..MaxVW vkey witnesses
-          MaxBW     \* 0..MaxBW bootstrap witnesses
+          MaxBW,    \* 0..MaxBW bootstrap witnesses
+          FlagSlice \* which cases also exist flagged is_valid = FALSE: "axes" | "full" (below)
 
 K      == {1, 2, 3}        \* key universe
 Owners == {1, 2}           \* keys that own outputs; key 3 is a stranger
@@ -49,6 +51,35 @@ CollSets == UpTo(Locks, 0, MaxColl)
 ReqSets  == UpTo(K, 0, MaxReq)
 VWSets   == UpTo(VWs, 0, MaxVW)
 BWSets   == UpTo(BWs, 0, MaxBW)
+AllWits  == VWSets \X BWSets        \* <<vkey witnesses, bootstrap witnesses>>
+
+\* The sixth dimension: the phase-2 flag.  From Alonzo on a transaction carries
+\* is_valid; FALSE says that its Plutus scripts fail -- the block producer
+\* includes it all the same and only its collateral is collected.  Witnesses
+\* and signatures are a phase-1 check (UTXOW): the ledger applies it whatever
+\* the flag says -- and it matters most for a flagged transaction: the
+\* collateral it forfeits has to be the signer's to forfeit.  Accept below
+\* does not read p2 (FlagIrrelevant).
+\* Eras whose transactions can be flagged.  Alonzo, Babbage, Conway: the third
+\* element of the transaction's envelope.  Dijkstra: the envelope cannot say
+\* is_valid = false; a transaction is flagged by the block that carries it
+\* (the block's invalid_transactions), which is where IsValid() = FALSE comes
+\* from in this library -- the driver flags the decoded transaction the way
+\* block decoding does.  Shelley..Mary transactions have no flag: the flagged
+\* cases do not exist there.
+FlagEras == {"alonzo", "babbage", "conway", "dijkstra"}
+\* The witness sets of the flagged cases.  "full": every case exists flagged
+\* as well (thorough tier).  "axes": every obligation (inputs, collateral,
+\* required signers) flagged with witnesses of one kind at a time -- every set
+\* of vkey witnesses without bootstrap witnesses, every set of bootstrap
+\* witnesses without vkey witnesses -- and no flagged ordered case (quick
+\* tier: + 13 % cases).  Every reason of rejection and acceptances of every
+\* lock kind occur in both.
+FlagWits == IF FlagSlice = "full" THEN AllWits
+            ELSE {<<v, {}>> : v \in VWSets} \cup {<<{}, b>> : b \in BWSets}
+FlagsOfOrdered == IF FlagSlice = "full" THEN BOOLEAN ELSE {FALSE}
+ASSUME FlagSlice \in {"axes", "full"}
+ASSUME FlagWits \subseteq AllWits     \* a flagged case always has its unflagged twin
 
 ----------------------------------------------------------------------------
 (* the rule *)
@@ -95,6 +126,7 @@ Silent(c) == \E l \in c.coll : l[1] = "byron"
 \* fixes the obligations, its successors add every witness set.  `done` marks
 \* a complete case; the meta-properties speak about complete cases.
 \*
+\* Flagged (p2 = TRUE) and unflagged cases: see FlagWits above.
 \* Two slices.  "base": every combination of the five dimensions above; the
 \* inputs are a set (field ord = <<>>: the driver lists them in a fixed order).
 \* "ordered": 2..3 inputs of mixed lock kinds as a SEQUENCE -- the order in
@@ -109,19 +141,19 @@ Orders == UNION {SetToSeqs(S) : S \in UpTo(Locks, 2, 3)}
 RangeOf(o) == {o[i] : i \in 1..Len(o)}
 OwnVW(S) == {<<l[2], TRUE>> : l \in {x \in S : x[1] = "key"}}
 OwnBW(S) == {<<l[2], 0, TRUE>> : l \in {x \in S : x[1] = "byron"}}
-OrderedCases == UNION {{[ins |-> RangeOf(o), coll |-> {}, req |-> {}, vw |-> v, bw |-> b, ord |-> o] :
-                          v \in SUBSET OwnVW(RangeOf(o)), b \in SUBSET OwnBW(RangeOf(o))} : o \in Orders}
+OrderedCases == UNION {{[ins |-> RangeOf(o), coll |-> {}, req |-> {}, vw |-> v, bw |-> b, ord |-> o, p2 |-> f] :
+                          v \in SUBSET OwnVW(RangeOf(o)), b \in SUBSET OwnBW(RangeOf(o)), f \in FlagsOfOrdered} : o \in Orders}
 
 VARIABLES c, done
 Init == /\ done = FALSE
-        /\ \/ \E i \in InsSets, co \in CollSets, r \in ReqSets :
-                 c = [ins |-> i, coll |-> co, req |-> r, vw |-> {}, bw |-> {}, ord |-> <<>>]
-           \/ \E o \in Orders :
-                 c = [ins |-> RangeOf(o), coll |-> {}, req |-> {}, vw |-> {}, bw |-> {}, ord |-> o]
+        /\ \/ \E i \in InsSets, co \in CollSets, r \in ReqSets, f \in BOOLEAN :
+                 c = [ins |-> i, coll |-> co, req |-> r, vw |-> {}, bw |-> {}, ord |-> <<>>, p2 |-> f]
+           \/ \E o \in Orders, f \in FlagsOfOrdered :
+                 c = [ins |-> RangeOf(o), coll |-> {}, req |-> {}, vw |-> {}, bw |-> {}, ord |-> o, p2 |-> f]
 Next == /\ ~done
         /\ done' = TRUE
         /\ IF c.ord = <<>>
-           THEN \E v \in VWSets, b \in BWSets : c' = [c EXCEPT !.vw = v, !.bw = b]
+           THEN \E w \in (IF c.p2 THEN FlagWits ELSE AllWits) : c' = [c EXCEPT !.vw = w[1], !.bw = w[2]]
            ELSE \E v \in SUBSET OwnVW(c.ins), b \in SUBSET OwnBW(c.ins) : c' = [c EXCEPT !.vw = v, !.bw = b]
 
 ----------------------------------------------------------------------------
@@ -188,15 +220,27 @@ OrderIrrelevant ==
               LET l == c.ord[i] IN
               l # ScriptLock => ~Accept([c EXCEPT !.vw = OwnVW(c.ins \ {l}), !.bw = OwnBW(c.ins \ {l})])
 
-Obligations == Cardinality(InsSets) * Cardinality(CollSets) * Cardinality(ReqSets) + Cardinality(Orders)
-NumCases    == Cardinality(InsSets) * Cardinality(CollSets) * Cardinality(ReqSets) * Cardinality(VWSets) * Cardinality(BWSets)
-               + Cardinality(OrderedCases)
+\* the phase-2 flag never changes the verdict, nor the reasons, nor what the
+\* property leaves open: a flagged transaction is accepted exactly when its
+\* unflagged twin is.  (Statement and every law above hold for a flagged case
+\* as they stand: none of them reads p2.)
+FlagIrrelevant == done =>
+    LET twin == [c EXCEPT !.p2 = ~@] IN
+    /\ Accept(twin) = Accept(c)
+    /\ Why(twin) = Why(c)
+    /\ Silent(twin) = Silent(c)
+    /\ (c.p2 /\ c.ord = <<>>) => (<<c.vw, c.bw>> \in FlagWits /\ <<c.vw, c.bw>> \in AllWits)
+
+BaseObl     == Cardinality(InsSets) * Cardinality(CollSets) * Cardinality(ReqSets)
+Obligations == BaseObl * 2 + Cardinality(Orders) * Cardinality(FlagsOfOrdered)
+NumCases    == BaseObl * Cardinality(AllWits) + BaseObl * Cardinality(FlagWits) + Cardinality(OrderedCases)
+NumFlagged  == BaseObl * Cardinality(FlagWits) + Cardinality({x \in OrderedCases : x.p2})
 \* POSTCONDITION: every combination was visited (and therefore emitted) once
 AllCasesVisited == TLCGet("distinct") = NumCases + Obligations
 
 ----------------------------------------------------------------------------
 Row(x) == [ins |-> SetToSeq(x.ins), coll |-> SetToSeq(x.coll), req |-> SetToSeq(x.req),
-           vw |-> SetToSeq(x.vw), bw |-> SetToSeq(x.bw), ord |-> x.ord,
+           vw |-> SetToSeq(x.vw), bw |-> SetToSeq(x.bw), ord |-> x.ord, p2 |-> x.p2,
            accept |-> Accept(x), silent |-> Silent(x), why |-> SetToSeq(Why(x))]
 
 \* Each complete case is printed once, with the verdict, when TLC checks the
@@ -204,4 +248,6 @@ Row(x) == [ins |-> SetToSeq(x.ins), coll |-> SetToSeq(x.coll), req |-> SetToSeq(
 \* runner collects the <<"ROW", json>> lines of TLC's output.
 Emit == done => PrintT(<<"ROW", ToJson(Row(c))>>)
 ASSUME PrintT(<<"NUMCASES", NumCases>>)
+ASSUME PrintT(<<"NUMFLAGGED", NumFlagged>>)
+ASSUME PrintT(<<"FLAGERAS", ToJson(SetToSeq(FlagEras))>>)
 =============================================================================
